@@ -98,6 +98,12 @@ def addVote (q : IterQuery) (a : Addr) : IterQuery :=
       | some n => alSet q.votes a (n + 1)
       | none => q.votes ++ [(a, 1)] }
 
+/-- the salt of the request (`GetValueRequestArguments::salt`), `none` for other lookups -/
+def salt (q : IterQuery) : Option Bytes :=
+  match q.kind with
+  | .getValue _ salt => salt
+  | _ => none
+
 /-- `is_done`: none of its requests is still in flight in the socket -/
 def isDone (q : IterQuery) (sock : Inflight) (now : Nat) : Bool :=
   !(q.inflight.any fun tid => sock.isInflight tid now)
@@ -352,21 +358,25 @@ def sendTo (s : Sender) (v : Value) : Option Event :=
   | .immutable c, .immutable _ => some (.value c v)
   | _, _ => none
 
+/-- the value of the node's own in-flight put for the target, if it has one -/
+def outgoingValues (c : Core) (target : Id) : List Value :=
+  match checkOutgoingPut c target with
+  | some v => [v]
+  | none => []
+
+/-- create the lookup, send its first requests and register it -/
+def startLookup (a : Actor) (k : GetKind) (target : Id) (extra : List Addr) (now : Nat) : Actor :=
+  match createIterativeQuery a.core k target extra now with
+  | (core, some (q, toVisit)) =>
+    { (visitAll { a with core := core } q toVisit now).1 with
+      core := { core with iter := alSet core.iter target (visitAll { a with core := core } q toVisit now).2 } }
+  | (core, none) => { a with core := core }
+
 /-- `Actor::get` -/
 def get (a : Actor) (k : GetKind) (target : Id) (extra : List Addr) (now : Nat) : Actor × List Value :=
-  let r1 := match checkOutgoingPut a.core target with
-    | some v => [v]
-    | none => []
   match alGet a.core.iter target with
-  | some q => (a, r1 ++ q.responses)
-  | none =>
-    let (core, made) := createIterativeQuery a.core k target extra now
-    let a := { a with core := core }
-    match made with
-    | some (q, toVisit) =>
-      let (a, q) := visitAll a q toVisit now
-      ({ a with core := { a.core with iter := alSet a.core.iter target q } }, r1)
-    | none => (a, r1)
+  | some q => (a, outgoingValues a.core target ++ q.responses)
+  | none => (a.startLookup k target extra now, outgoingValues a.core target)
 
 /-- `populate` -/
 def populate (a : Actor) (now : Nat) : Actor :=
@@ -454,22 +464,24 @@ def maybeAddNodeFromRequest (c : Core) (src : Addr) (version : Option Bytes) (ro
     | _ => c
   else c
 
-/-- `does_verify_our_new_public_address_with_self_ping`; the new id (when the current one is not
-    valid for the confirmed address) draws 21 random bytes -/
+def isPingReq (req : Request) : Bool :=
+  match req.rtype with
+  | .ping => true
+  | _ => false
+
+/-- restart the routing tables under a new BEP42 id for `ip` (21 random bytes are drawn) -/
+def rekey (c : Core) (ip : UInt32) (now : Nat) : Core :=
+  { c with server := { c.server with rng := (rngFill 21 c.server.rng).2 },
+           rt := c.rt.resetId (Id.fromIpv4 (rngFill 21 c.server.rng).1 ip) now,
+           srt := c.srt.resetId (Id.fromIpv4 (rngFill 21 c.server.rng).1 ip) now }
+
+/-- `does_verify_our_new_public_address_with_self_ping` -/
 def verifySelfPing (c : Core) (src : Addr) (req : Request) (now : Nat) : Core × Bool :=
   match c.publicAddress with
   | some our =>
-    let isPing := match req.rtype with
-      | .ping => true
-      | _ => false
-    if src == our && isPing then
-      let c := { c with firewalled := false }
-      if !c.rt.id.isValidForIp our.ip then
-        let (rnd, rng) := rngFill 21 c.server.rng
-        let newId := Id.fromIpv4 rnd our.ip
-        ({ c with server := { c.server with rng := rng }, rt := c.rt.resetId newId now,
-                  srt := c.srt.resetId newId now }, true)
-      else (c, false)
+    if src == our && isPingReq req then
+      if !c.rt.id.isValidForIp our.ip then (rekey { c with firewalled := false } our.ip now, true)
+      else ({ c with firewalled := false }, false)
     else (c, false)
   | none => (c, false)
 
@@ -526,63 +538,88 @@ def queryValue (verify : Verify) (q : IterQuery) (m : MessageType) : Option Valu
   | .response (.getImmutable _ _ _ v) =>
     if hashImmutable v == q.target.bytes then (some (.immutable v), true) else (none, true)
   | .response (.getMutable _ _ _ v k seq sig) =>
-    let salt := match q.kind with
-      | .getValue _ salt => salt
-      | _ => none
-    (match mutableFromMessage verify q.target k v seq sig salt with
+    (match mutableFromMessage verify q.target k v seq sig q.salt with
      | some item => (some (.mutable item), true)
      | none => (none, true))
   | _ => (none, true)
 
+def addCandidates (q : IterQuery) (ns : List Node) (now : Nat) : IterQuery :=
+  ns.foldl (fun q n => { q with closest := q.closest.add { n with lastSeen := now } }) q
+
+/-- the closer nodes of a response become candidates -/
+def absorbNodes (q : IterQuery) (now : Nat) (m : Message) : IterQuery :=
+  match m.mtype with
+  | .response r => (match Response.closerNodes r with
+    | some ns => addCandidates q ns now
+    | none => q)
+  | _ => q
+
+/-- a responder that gave a token becomes a storage candidate -/
+def absorbToken (q : IterQuery) (now : Nat) (src : Addr) (m : Message) : IterQuery :=
+  match m.mtype with
+  | .response r => (match Response.token r with
+    | some (i, tok) =>
+      { q with responders := q.responders.add { id := i, addr := src, token := some tok, lastSeen := now } }
+    | none => q)
+  | _ => q
+
+/-- the address the responder saw us at is a vote -/
+def absorbVote (q : IterQuery) (m : Message) : IterQuery :=
+  match m.requesterIp with
+  | some ip => q.addVote ip
+  | none => q
+
+/-- what a lookup absorbs from any message attributed to it -/
+def absorb (q : IterQuery) (now : Nat) (src : Addr) (m : Message) : IterQuery :=
+  absorbVote (absorbToken (absorbNodes q now m) now src m) m
+
+/-- a lookup handles a message: the updated lookup, the value for its callers (if any), and
+    whether the sender may enter the routing table -/
+def lookupStep (q : IterQuery) (env : Env) (src : Addr) (m : Message) : IterQuery × Option Value × Bool :=
+  match queryValue env.verify (absorb q env.now src m) m.mtype with
+  | (some v, b) => ({ (absorb q env.now src m) with responses := (absorb q env.now src m).responses ++ [v] }, some v, b)
+  | (none, b) => (absorb q env.now src m, none, b)
+
+def authorId (m : Message) : Option Id :=
+  match m.mtype with
+  | .request r => some r.requesterId
+  | .response r => some (Response.authorId r)
+  | .error _ => none
+
+/-- add the author of an expected response to the routing table(s) -/
+def addResponder (c : Core) (now : Nat) (src : Addr) (m : Message) : Core :=
+  match authorId m with
+  | some i =>
+    if supportsSignedPeers m.version then
+      { c with rt := (c.rt.add { id := i, addr := src, lastSeen := now } now).1,
+               srt := (c.srt.add { id := i, addr := src, lastSeen := now } now).1 }
+    else { c with rt := (c.rt.add { id := i, addr := src, lastSeen := now } now).1 }
+  | none => c
+
+/-- the put branch of `handle_response` -/
+def putStep (q : PutQuery) (m : MessageType) : PutQuery :=
+  match m with
+  | .response (.ping _) => q.success
+  | .error err => q.error err.code
+  | _ => q
+
 /-- `Core::handle_response`: the new value for the callers of a lookup, if any -/
 def handleResponse (c : Core) (env : Env) (src : Addr) (m : Message) : Core × Option (Id × Value) :=
   if m.readOnly then (c, none) else
-  let tid := m.tid.toNat
-  match c.puts.find? (fun p => p.2.q.isInflight tid) with
-  | some (target, e) =>
-    let q := match m.mtype with
-      | .response (.ping _) => e.q.success
-      | .error err => e.q.error err.code
-      | _ => e.q
-    ({ c with puts := alSet c.puts target { e with q := q } }, none)
+  match c.puts.find? (fun p => p.2.q.isInflight m.tid.toNat) with
+  | some (target, e) => ({ c with puts := alSet c.puts target { e with q := putStep e.q m.mtype } }, none)
   | none =>
-    let authorId : Option Id := match m.mtype with
-      | .request r => some r.requesterId
-      | .response r => some (Response.authorId r)
-      | .error _ => none
-    let addNode (c : Core) : Core :=
-      match authorId with
-      | some i =>
-        let node : Node := { id := i, addr := src, lastSeen := env.now }
-        let c := { c with rt := (c.rt.add node env.now).1 }
-        if supportsSignedPeers m.version then { c with srt := (c.srt.add node env.now).1 } else c
-      | none => c
-    match c.iter.find? (fun p => p.2.isInflight tid) with
+    match c.iter.find? (fun p => p.2.isInflight m.tid.toNat) with
     | some (target, q) =>
-      let q := match m.mtype with
-        | .response r => (match Response.closerNodes r with
-          | some ns => ns.foldl (fun q n => { q with closest := q.closest.add { n with lastSeen := env.now } }) q
-          | none => q)
-        | _ => q
-      let q := match m.mtype with
-        | .response r => (match Response.token r with
-          | some (i, tok) =>
-            { q with responders := q.responders.add { id := i, addr := src, token := some tok, lastSeen := env.now } }
-          | none => q)
-        | _ => q
-      let q := match m.requesterIp with
-        | some ip => q.addVote ip
-        | none => q
-      let (val, mayAdd) := queryValue env.verify q m.mtype
-      let q := match val with
-        | some v => { q with responses := q.responses ++ [v] }
-        | none => q
-      let c := { c with iter := alSet c.iter target q }
-      let c := if mayAdd then addNode c else c
-      (c, val.map fun v => (target, v))
+      if (lookupStep q env src m).2.2 then
+        (addResponder { c with iter := alSet c.iter target (lookupStep q env src m).1 } env.now src m,
+         (lookupStep q env src m).2.1.map fun v => (target, v))
+      else
+        ({ c with iter := alSet c.iter target (lookupStep q env src m).1 },
+         (lookupStep q env src m).2.1.map fun v => (target, v))
     | none =>
       (match m.mtype with
-       | .response (.ping _) => (addNode c, none)
+       | .response (.ping _) => (addResponder c env.now src m, none)
        | _ => (c, none))
 
 /-! #### the tick -/
@@ -600,23 +637,31 @@ def decrementCached (c : Core) (e : Option CachedQuery) : Core :=
     else { c with stats := c.stats.decrementResponders e.est e.respEst e.subnets }
   | none => c
 
+/-- the eviction at the head of `cache_iterative_query`: when the cache is full, the least recently
+    used entry leaves and its statistics are withdrawn -/
+def evictIfFull (c : Core) : Core :=
+  if c.cache.len ≥ Constants.MAX_CACHED_ITERATIVE_QUERIES then
+    decrementCached { c with cache := c.cache.popLru.1 } (c.cache.popLru.2.map (·.2))
+  else c
+
+/-- what is remembered of a finished lookup -/
+def mkEntry (q : IterQuery) (closestResponding : List Node) : CachedQuery :=
+  { nodes := closestResponding, est := q.closest.dhtSizeEstimate, respEst := q.responders.dhtSizeEstimate,
+    subnets := q.responders.subnetsCount, kind := q.kind }
+
+/-- add an entry's samples to the statistics of its table -/
+def countEntry (c : Core) (e : CachedQuery) : Core :=
+  if e.kind.isFindNode then { c with stats := c.stats.incrementDhtSize e.est }
+  else if e.kind.isSigned then { c with sstats := c.sstats.incrementResponders e.est e.respEst e.subnets }
+  else { c with stats := c.stats.incrementResponders e.est e.respEst e.subnets }
+
 /-- `cache_iterative_query` -/
 def cacheQuery (c : Core) (q : IterQuery) (closestResponding : List Node) : Core :=
-  let c := if c.cache.len ≥ Constants.MAX_CACHED_ITERATIVE_QUERIES then
-      let (cache, popped) := c.cache.popLru
-      decrementCached { c with cache := cache } (popped.map (·.2))
-    else c
-  if q.closest.nodes.isEmpty then c else
-    let est := q.closest.dhtSizeEstimate
-    let respEst := q.responders.dhtSizeEstimate
-    let subnets := q.responders.subnetsCount
-    let previous := c.cache.find? q.target
-    let entry : CachedQuery := { nodes := closestResponding, est, respEst, subnets, kind := q.kind }
-    let c := { c with cache := c.cache.put q.target entry }
-    let c := decrementCached c previous
-    if q.kind.isFindNode then { c with stats := c.stats.incrementDhtSize est }
-    else if q.kind.isSigned then { c with sstats := c.sstats.incrementResponders est respEst subnets }
-    else { c with stats := c.stats.incrementResponders est respEst subnets }
+  if q.closest.nodes.isEmpty then evictIfFull c else
+    countEntry
+      (decrementCached { (evictIfFull c) with cache := (evictIfFull c).cache.put q.target (mkEntry q closestResponding) }
+        ((evictIfFull c).cache.find? q.target))
+      (mkEntry q closestResponding)
 
 /-- `update_address_votes_from_iterative_query` -/
 def updateAddressVotes (c : Core) (q : IterQuery) : Core × Option Addr :=
@@ -636,85 +681,112 @@ def pingRound (c : Core) (now : Nat) : Core × List Addr :=
   let (srt, p2) := one c.srt
   ({ c with rt := rt, srt := srt }, p1 ++ p2)
 
-/-- `periodic_node_maintaenance` -/
-def maintenance (a : Actor) (now : Nat) : Actor :=
-  let a := if a.core.rt.isEmpty then a.populate now else a
-  let a := if now - a.core.lastRefresh > secsToNs Constants.REFRESH_TABLE_SECS then
-      let a := { a with core := { a.core with lastRefresh := now } }
-      let a := if !a.core.serverMode && !a.core.firewalled then
-          { a with sockServerMode := true, core := { a.core with serverMode := true } } else a
-      a.populate now
-    else a
-  if now - a.core.lastPing > secsToNs Constants.PING_TABLE_SECS then
-    let a := { a with core := { a.core with lastPing := now } }
-    let (core, toPing) := pingRound a.core now
-    toPing.foldl (fun a addr => a.ping addr now) { a with core := core }
+/-- bootstrap again whenever the routing table is empty -/
+def bootstrapIfEmpty (a : Actor) (now : Nat) : Actor := if a.core.rt.isEmpty then a.populate now else a
+
+/-- adaptive mode: a client that is not firewalled becomes a server -/
+def adaptiveSwitch (a : Actor) : Actor :=
+  if !a.core.serverMode && !a.core.firewalled then
+    { a with sockServerMode := true, core := { a.core with serverMode := true } }
   else a
 
-/-- the part of `tick` after `recv_from` returned -/
-def afterRecv (a : Actor) (env : Env) (dgram : Option (Message × Addr)) : Actor :=
-  let now := env.now
-  -- recv_from returns: the accept/drop decision (`cleanup` ran when the thread entered `recv_from`,
-  -- at the end of the previous step)
-  let (a, handed) := match dgram with
-    | none => (a, none)
-    | some (m, src) =>
-      let kind : Incoming := match m.mtype with
-        | .request _ => .request
-        | .response _ => .response
-        | .error _ => .error
-      -- the round trip sample `remove` takes when the addressed peer answers (in time or late)
-      let sample : Option Nat :=
-        if src.port == 0 || kind == Incoming.request then none
-        else match a.sock.find m.tid.toNat with
-          | some r => if compareAddr r.to src then some (now - r.sentAt) else none
-          | none => none
-      let (sock, up) := a.sock.decide kind m.tid.toNat src now
-      let rtt := match sample with
-        | some s => a.rtt.update s
-        | none => a.rtt
-      ({ a with sock := { sock with timeout := rtt.timeout }, rtt := rtt }, if up then some (m, src) else none)
-  -- handle_incoming_message
-  let (a, newValue) := match handed with
-    | none => (a, none)
-    | some (m, src) =>
-      (match m.mtype with
-       | .request req =>
-         let (core, r, repopulate) := handleRequest a.core env src m.readOnly m.version req
-         let a := { a with core := core }
-         let a := match r with
-           | some (.response r) => a.reply src m.tid (.response r)
-           | some (.error code) => a.reply src m.tid (.error { code, description := [] })
-           | none => a
-         (if repopulate then a.populate now else a, none)
-       | _ =>
-         let (core, v) := handleResponse a.core env src m
-         ({ a with core := core }, v))
-  -- forward the new value to the callers waiting on that target
-  let a := match newValue with
-    | some (target, v) =>
-      (match alGet a.getSenders target with
-       | some senders => { a with events := a.events ++ senders.filterMap (fun s => sendTo s v) }
-       | none => a)
-    | none => a
-  -- check_done_put_queries
-  let donePuts : List (Id × Option PutErr) := a.core.puts.filterMap fun p =>
+def refreshDue (a : Actor) (now : Nat) : Bool := now - a.core.lastRefresh > secsToNs Constants.REFRESH_TABLE_SECS
+
+/-- every 15 minutes: adaptive switch, then a lookup of the own id -/
+def refreshTable (a : Actor) (now : Nat) : Actor :=
+  if a.refreshDue now then
+    (adaptiveSwitch { a with core := { a.core with lastRefresh := now } }).populate now
+  else a
+
+/-- every 5 minutes: drop stale nodes, ping the others -/
+def pingTable (a : Actor) (now : Nat) : Actor :=
+  if now - a.core.lastPing > secsToNs Constants.PING_TABLE_SECS then
+    (pingRound { a.core with lastPing := now } now).2.foldl (fun a addr => a.ping addr now)
+      { a with core := (pingRound { a.core with lastPing := now } now).1 }
+  else a
+
+/-- `periodic_node_maintaenance` -/
+def maintenance (a : Actor) (now : Nat) : Actor :=
+  ((a.bootstrapIfEmpty now).refreshTable now).pingTable now
+
+/-- `recv_from` returns: the accept/drop decision (`cleanup` ran when the thread entered
+    `recv_from`, at the end of the previous step), with the round trip sample `remove` takes when
+    the addressed peer answers (in time or late) -/
+def recvPhase (a : Actor) (now : Nat) (dgram : Option (Message × Addr)) : Actor × Option (Message × Addr) :=
+  match dgram with
+  | none => (a, none)
+  | some (m, src) =>
+    let kind : Incoming := match m.mtype with
+      | .request _ => .request
+      | .response _ => .response
+      | .error _ => .error
+    let sample : Option Nat :=
+      if src.port == 0 || kind == Incoming.request then none
+      else match a.sock.find m.tid.toNat with
+        | some r => if compareAddr r.to src then some (now - r.sentAt) else none
+        | none => none
+    let (sock, up) := a.sock.decide kind m.tid.toNat src now
+    let rtt := match sample with
+      | some s => a.rtt.update s
+      | none => a.rtt
+    ({ a with sock := { sock with timeout := rtt.timeout }, rtt := rtt }, if up then some (m, src) else none)
+
+/-- `handle_incoming_message` -/
+def handleIncoming (a : Actor) (env : Env) (handed : Option (Message × Addr)) : Actor × Option (Id × Value) :=
+  match handed with
+  | none => (a, none)
+  | some (m, src) =>
+    (match m.mtype with
+     | .request req =>
+       let (core, r, repopulate) := handleRequest a.core env src m.readOnly m.version req
+       let a := { a with core := core }
+       let a := match r with
+         | some (.response r) => a.reply src m.tid (.response r)
+         | some (.error code) => a.reply src m.tid (.error { code, description := [] })
+         | none => a
+       (if repopulate then a.populate env.now else a, none)
+     | _ =>
+       let (core, v) := handleResponse a.core env src m
+       ({ a with core := core }, v))
+
+/-- forward a new value to the callers waiting on that target -/
+def forwardValue (a : Actor) (newValue : Option (Id × Value)) : Actor :=
+  match newValue with
+  | some (target, v) =>
+    (match alGet a.getSenders target with
+     | some senders => { a with events := a.events ++ senders.filterMap (fun s => sendTo s v) }
+     | none => a)
+  | none => a
+
+/-- `check_done_put_queries` -/
+def checkDonePuts (a : Actor) (now : Nat) : List (Id × Option PutErr) :=
+  a.core.puts.filterMap fun p =>
     match p.2.q.check a.sock now with
     | .ok true => some (p.1, none)
     | .ok false => none
     | .error e => some (p.1, some e)
-  -- visit_closest for every lookup
-  let a := a.core.iter.foldl (fun (a : Actor) (p : Id × IterQuery) =>
-    match alGet a.core.iter p.1 with
-    | some q =>
-      let (a, q) := visitAll a q q.closestCandidates now
-      { a with core := { a.core with iter := alSet a.core.iter p.1 q } }
-    | none => a) a
-  -- check_done_iterative_queries
-  let doneIter : List (Id × List Node) := a.core.iter.filterMap fun p =>
+
+/-- `visit_closest` for one lookup -/
+def visitClosest (a : Actor) (target : Id) (now : Nat) : Actor :=
+  match alGet a.core.iter target with
+  | some q =>
+    let (a, q) := visitAll a q q.closestCandidates now
+    { a with core := { a.core with iter := alSet a.core.iter target q } }
+  | none => a
+
+/-- `visit_closest` for every lookup -/
+def visitClosestAll (a : Actor) (now : Nat) : Actor :=
+  a.core.iter.foldl (fun (a : Actor) (p : Id × IterQuery) => a.visitClosest p.1 now) a
+
+/-- `check_done_iterative_queries` -/
+def doneLookups (a : Actor) (now : Nat) : List (Id × List Node) :=
+  a.core.iter.filterMap fun p =>
     if p.2.isDone a.sock now then some (p.1, closestOfDone a.core p.2) else none
-  -- start_put_queries
-  let (a, donePuts) := doneIter.foldl (fun (acc : Actor × List (Id × Option PutErr)) (d : Id × List Node) =>
+
+/-- `start_put_queries` -/
+def startPuts (a : Actor) (now : Nat) (doneIter : List (Id × List Node)) (donePuts : List (Id × Option PutErr)) :
+    Actor × List (Id × Option PutErr) :=
+  doneIter.foldl (fun (acc : Actor × List (Id × Option PutErr)) (d : Id × List Node) =>
     let a := acc.1
     match alGet a.core.puts d.1 with
     | some e =>
@@ -724,7 +796,10 @@ def afterRecv (a : Actor) (env : Env) (dgram : Option (Message × Addr)) : Actor
        | .error err => (a, acc.2 ++ [(d.1, some err)])
        | .ok () => (a, acc.2))
     | none => acc) (a, donePuts)
-  -- cleanup_done_queries
+
+/-- `cleanup_done_queries`: the new core and the address to ping, if the votes changed it -/
+def cleanupDone (c : Core) (doneIter : List (Id × List Node)) (donePuts : List (Id × Option PutErr)) :
+    Core × Option Addr :=
   let (core, toPing) := doneIter.foldl (fun (acc : Core × Option Addr) (d : Id × List Node) =>
     match alGet acc.1.iter d.1 with
     | some q =>
@@ -734,30 +809,52 @@ def afterRecv (a : Actor) (env : Env) (dgram : Option (Message × Addr)) : Actor
       (c, match p with
         | some x => some x
         | none => acc.2)
-    | none => acc) (a.core, none)
-  let core := donePuts.foldl (fun (c : Core) d => { c with puts := alRemove c.puts d.1 }) core
-  let a := { a with core := core }
-  let a := match toPing with
-    | some addr => a.ping addr now
-    | none => a
-  -- answer the callers of finished lookups
-  let a := doneIter.foldl (fun (a : Actor) (d : Id × List Node) =>
+    | none => acc) (c, none)
+  (donePuts.foldl (fun (c : Core) d => { c with puts := alRemove c.puts d.1 }) core, toPing)
+
+/-- what a caller parked on a finished lookup receives -/
+def closingEvent (nodes : List Node) : Sender → Event
+  | .closestNodes c => .nodes c nodes
+  | .peers c | .signedPeers c | .mutable c | .immutable c => .closed c
+
+/-- answer the callers of finished lookups -/
+def releaseGetCallers (a : Actor) (doneIter : List (Id × List Node)) : Actor :=
+  doneIter.foldl (fun (a : Actor) (d : Id × List Node) =>
     match alGet a.getSenders d.1 with
     | some senders =>
-      { a with getSenders := alRemove a.getSenders d.1,
-               events := a.events ++ senders.map fun s => match s with
-                 | .closestNodes c => Event.nodes c d.2
-                 | .peers c | .signedPeers c | .mutable c | .immutable c => Event.closed c }
+      { a with getSenders := alRemove a.getSenders d.1, events := a.events ++ senders.map (closingEvent d.2) }
     | none => a) a
-  -- answer the callers of finished puts
+
+def putOutcome (d : Id × Option PutErr) : Except PutErr Id :=
+  match d.2 with
+  | some e => .error e
+  | none => .ok d.1
+
+/-- answer the callers of finished puts -/
+def releasePutCallers (a : Actor) (donePuts : List (Id × Option PutErr)) : Actor :=
   donePuts.foldl (fun (a : Actor) (d : Id × Option PutErr) =>
     match alGet a.putSenders d.1 with
     | some cs =>
       { a with putSenders := alRemove a.putSenders d.1,
-               events := a.events ++ cs.map fun c => Event.putResult c (match d.2 with
-                 | some e => .error e
-                 | none => .ok d.1) }
+               events := a.events ++ cs.map fun c => Event.putResult c (putOutcome d) }
     | none => a) a
+
+/-- the part of `tick` after `recv_from` returned -/
+def afterRecv (a : Actor) (env : Env) (dgram : Option (Message × Addr)) : Actor :=
+  let now := env.now
+  let (a, handed) := a.recvPhase now dgram
+  let (a, newValue) := a.handleIncoming env handed
+  let a := a.forwardValue newValue
+  let donePuts := a.checkDonePuts now
+  let a := a.visitClosestAll now
+  let doneIter := a.doneLookups now
+  let (a, donePuts) := a.startPuts now doneIter donePuts
+  let (core, toPing) := cleanupDone a.core doneIter donePuts
+  let a := { a with core := core }
+  let a := match toPing with
+    | some addr => a.ping addr now
+    | none => a
+  (a.releaseGetCallers doneIter).releasePutCallers donePuts
 
 def senderCaller : Sender → Nat
   | .closestNodes c | .peers c | .signedPeers c | .mutable c | .immutable c => c
